@@ -117,6 +117,27 @@ fn alphabet() -> Vec<Dev> {
             }
         }
     }
+    // the keyword sits in a LATER #[strum(..)] attribute of the variant, with a foreign attribute in between
+    d.push(dev("transparent variant last (tuple, String): #[strum(to_string = ..)] #[allow(..)] #[strum(transparent)]", &["transparent"], |s| {
+        let mut v = VariantSpec::unit("Tt");
+        v.to_string = Some("Ttx".into());
+        v.transparent = true;
+        v.layout = Layout::Split;
+        v.kind = Kind::Tuple(vec![FieldTy::Str]);
+        s.variants.push(v);
+        s.syntax.push("interleaved-foreign".into());
+        true
+    }));
+    d.push(dev("default variant last (tuple, String): #[strum(serialize = ..)] #[allow(..)] #[strum(default)]", &["default"], |s| {
+        let mut v = VariantSpec::unit("Dd");
+        v.default = true;
+        v.serialize = vec!["dser".into()];
+        v.layout = Layout::Split;
+        v.kind = Kind::Tuple(vec![FieldTy::Str]);
+        s.variants.push(v);
+        s.syntax.push("interleaved-foreign".into());
+        true
+    }));
     // TWO transparent variants whose inner types differ (their arms look alike token for token, but bind different types)
     d.push(dev("two transparent variants: Ts(&'static str) first, Tn(nested enum) last", &["transparent"], |s| {
         let mut a = VariantSpec::unit("Ts");
